@@ -144,7 +144,7 @@ package tchannel
 //@ ghostfield lookupHit
 //@ func (r *relayItems) Get(id uint32, stopTimeout bool) (item relayItem, stopped bool, found bool)
 //@   nosafety
-//@   modifies allbut Frame, own, lazyCallReq, Relayer, bytes, nadmit, admitted
+//@   modifies allbut Frame, own, lazyCallReq, Relayer, bytes, nadmit, admitted, nends, ndec
 //@   ensures found == has(r.items, id)
 // ghost: the table remembers the answer of its most recent lookup
 //@   defines lookupHit(r) == ite(found, 1, 0)
@@ -187,3 +187,24 @@ package tchannel
 //@   label call-on-closing-connection-is-declined
 //@   atcall SendSystemError nadmit(r) == old(nadmit(r)) + 1 && admitted(r) == 0 ==> arg1 == old(f.Header.ID) && GetSystemErrorCode(arg3) == ErrCodeDeclined
 //@   property C20
+
+// ---------------------------------------------------------------------------
+// timeout / failure paths report End before they give up the pending count (C09)
+// ---------------------------------------------------------------------------
+
+// On the originating side, the path that entombs the item reports End for the
+// call -- whatever state the connection is in -- before the pending count is
+// released; the receiving half reports nothing.
+//@ func (r *Relayer) timeoutRelayItem(items *relayItems, id uint32, isOriginator bool)
+//@   label End-reported-before-the-pending-count-is-released
+//@   atcall decrementPending isOriginator ==> nends(item.call) == old(nends(item.call)) + 1
+//@   label receiving-half-reports-nothing
+//@   atcall End isOriginator
+//@   property C09
+
+//@ func (r *Relayer) failRelayItem(items *relayItems, id uint32, reason string, err error)
+//@   label End-reported-before-the-pending-count-is-released
+//@   atcall decrementPending item.isOriginator ==> nends(item.call) == old(nends(item.call)) + 1
+//@   label receiving-half-reports-nothing
+//@   atcall End item.isOriginator
+//@   property C09
